@@ -10,6 +10,7 @@ Decided statically (E1 layout types + structural pairing rules):
   operands       every binary method uses the values of both operands on the non-scalar path
   result-domain  project/transpose answer in the requested order; binary ops answer over the merged domain
   aggregation-mode  project reduces with the reducer the caller asked for (read once per mode, tests on the mode decided)
+  operators-allocate  the non in-place operators / reductions return a table allocated by the call (never an operand or a view of it)
   out-contract   every `x.exp/log/copy(out=y)` call site passes the receiver itself
   axes-primitive Domain.axes is a by-name lookup into the domain's own attribute tuple
   none-test      an `attrs=None` default meaning "aggregate everything" is tested against None, not by truthiness
@@ -142,6 +143,7 @@ def run(ctx):
     check_out_callsites(ctx)
     check_out_writes(ctx, methods)
     check_aggregation_mode(ctx, methods['project'])
+    check_operators_allocate(ctx)
     check_axes_primitive(ctx)
     check_clique_vector(ctx)
     from .C15 import none_tests
@@ -179,6 +181,29 @@ def check_init(ctx, fi, ty):
     ok = v.kind == 'arr' and v.a == ('param', dom_src[1])
     ctx.ob('construct', fi, s, ok, 'stored values laid out by %s, stored domain is `%s`'
            % (show(v.a) if v.kind == 'arr' else 'an untyped expression', dom_src[1]))
+
+
+ALLOCATING = ('__add__', '__radd__', '__mul__', '__rmul__', '__sub__', '__truediv__', 'logaddexp', 'sum', 'logsumexp', 'max')
+
+
+def check_operators_allocate(ctx):
+    """The (non in-place) operators and reductions of Factor return a table of their own: `c = a + b` followed by `c += d` must leave a
+    and b alone, and the library relies on it (`belief = sum(..); belief += ..`; builtin sum starts from `0 + first`).  Ownership
+    analysis (engines/fresh.py): the array of the returned factor is allocated by the call on every path."""
+    from ..engines.fresh import Freshness, FRESH
+    F = Freshness(ctx.repo)
+    n = 0
+    for name in ALLOCATING:
+        if ('Factor', name) not in F.summary:
+            continue
+        fi = F.methods[('Factor', name)]
+        v = F.summary[('Factor', name)]
+        n += 1
+        ctx.ob('operators-allocate', fi, fi.node, v == FRESH,
+               'Factor.%s returns %s' % (name, 'a table allocated by the call' if v == FRESH else
+                                         'on some path (a view of) storage of the %s: an in-place update of the result then rewrites the operand' % v),
+               construct='ownership of the result of Factor.' + name)
+    ctx.floor('operators checked for ownership of their result', n, 8)
 
 
 def check_aggregation_mode(ctx, fi):
